@@ -183,9 +183,13 @@ def lookup_summary(ctx, fn_name, _memo=None, _stack=()):
     kinds = set(re.findall(r'Meta\s*::\s*(Path|NameValue|List)', txt))
     ns = {_val(c['args'][1], params) for c in f['calls'] if c.get('f') == 'get_meta_items' and c.get('recv') is None and len(c.get('args', [])) == 2}
     # is_ident(x) appears as a call or inside a `matches!`/match-arm guard that astq keeps as text
-    names = {_val(c['args'][0], params) for c in f['calls'] if c.get('f') == 'is_ident' and c.get('args')}
+    def on_attribute_path(c):
+        # `attr.path().is_ident("cfg")` names the attribute itself (its namespace), not one of its arguments
+        r = vt.strip(c.get('recv')) if c.get('recv') is not None else None
+        return isinstance(r, dict) and r.get('k') == 'call' and r.get('f') == 'path' and not r.get('args')
+    names = {_val(c['args'][0], params) for c in f['calls'] if c.get('f') == 'is_ident' and c.get('args') and not on_attribute_path(c)}
     for x in vt.walk(f.get('tail')):
-        if x.get('k') == 'call' and x.get('f') == 'is_ident' and x.get('args'):
+        if x.get('k') == 'call' and x.get('f') == 'is_ident' and x.get('args') and not on_attribute_path(x):
             names.add(_val(x['args'][0], params))
     for m in re.findall(r'is_ident\s*\(\s*("([^"\\]*)"|[A-Za-z_][A-Za-z0-9_]*)\s*\)', ' '.join(a.get('guard_text') or '' for mm in f['matches'] for a in mm['arms']) + ' ' + ' '.join(str(a.get('pat', '')) for mm in f['matches'] for a in mm['arms'])):
         names.add(('lit', m[1]) if m[0].startswith('"') else (('param', params.index(m[0])) if m[0] in params else ('const', m[0])))
